@@ -95,6 +95,23 @@ def sphere_flux(f, c, rad, max_sub):
     return float(r.estimate), float(r.error), 4 * np.pi * rad**2
 
 
+def loop_circulation_smooth(f, c, rad, rot, nmax=8192):
+    """circle in free space: the integrand is periodic and analytic, the trapezoidal rule converges
+    geometrically; N is doubled until two successive values agree, error estimate = their difference.
+    Every level is ONE vectorised call of the real getH."""
+    prev, n = None, 64
+    while True:
+        t = np.arange(n) * (2 * np.pi / n)
+        p = rot.apply(np.c_[rad * np.cos(t), rad * np.sin(t), 0 * t]) + c
+        dl = rot.apply(np.c_[-rad * np.sin(t), rad * np.cos(t), 0 * t])
+        v = float(np.sum(np.einsum("ij,ij->i", f(p), dl)) * (2 * np.pi / n))
+        if prev is not None:
+            e = abs(v - prev)
+            if e <= 1e-11 * f.maxabs * 2 * np.pi * rad or n >= nmax:
+                return v, e, 2 * np.pi * rad
+        prev, n = v, n * 2
+
+
 def loop_circulation(f, c, rad, rot, breaks=None, npoly=0, limit=300):
     """circle (npoly=0) or regular polygon loop in the plane rot.(x,y), centre c"""
     if npoly == 0:
@@ -149,13 +166,23 @@ def rand_closed_polyline(rng):
 
 
 def gen_case(rng):
-    kind = KINDS[int(rng.integers(0, len(KINDS)))]
+    # loops around wires cost one vectorised call per refinement level: drawn more often than the surface cases
+    kind = str(rng.choice(KINDS, p=[0.07, 0.07, 0.07, 0.11, 0.07, 0.33, 0.2, 0.08]))
     case = {"kind": kind, "seed": int(rng.integers(0, 2**31))}
     if kind in ("circ_link", "circ_nolink"):
         s = objs.rand_source(rng, "Circle") if rng.random() < 0.5 else rand_closed_polyline(rng)
         case["sources"] = [s]
     elif kind in ("flux_inside", "circ_magnet", "flux_cutting"):
         s0 = objs.rand_source(rng, str(rng.choice(objs.MAGNETS)))
+        if kind == "flux_cutting" and rng.random() < 0.25:
+            # cylinder segments described with section angles outside (-180, 360): the inside test works on a
+            # second representation of the observer azimuth there
+            s0 = objs.rand_source(rng, "CylinderSegment")
+            d = s0["dimension"]
+            w = float(rng.uniform(40, 200))
+            p1 = float(rng.choice([rng.uniform(-360, -190 - w if w < 160 else -360 + 1), rng.uniform(200, 360)]))
+            s0["dimension"] = [d[0], d[1], d[2], p1, p1 + w]
+            case["wrapped_angles"] = True
         case["sources"] = [s0]
         if rng.random() < 0.35:
             # a twin listed FIRST: same body (same local geometry), other polarization, placed elsewhere; the
@@ -175,6 +202,13 @@ def gen_case(rng):
             s2["position"] = (np.array(s2["position"]) + 2.5).tolist()
             srcs.append(s2)
         case["sources"] = srcs
+    if len(case["sources"]) == 1 and rng.random() < 0.4:
+        # the whole setup in another length unit (nm .. km): the laws hold at every scale
+        from vfw.props.c12 import scale_spec
+
+        u = float(10.0 ** rng.choice([-9, -6, -3, 3]))
+        case["sources"] = [scale_spec(x, u) for x in case["sources"]]
+        case["unit"] = u
     return case
 
 
@@ -184,6 +218,7 @@ def check_case(ctx, case):
     specs = case["sources"]
     s = specs[0]
     size = objs.size_of(s)
+    unit = float(case.get("unit", 1.0))
     p0, R0 = np.array(s["position"][0]), R.from_quat(s["orientation"][0])
     quick = ctx.tier != "thorough"
     # effort caps (per face / per loop); CylinderSegment costs ~20x more per node
@@ -207,7 +242,7 @@ def check_case(ctx, case):
                 d = rng.normal(size=3)
                 d /= np.linalg.norm(d)
                 half = size * 10 ** rng.uniform(-2, 0.3, 3)
-                c = p0 + d * (1.2 * size + 2.0 * np.linalg.norm(half) + sum(objs.size_of(x) for x in specs[1:]) * 0 + 0.2)
+                c = p0 + d * (1.2 * size + 2.0 * np.linalg.norm(half) + 0.2 * unit)
                 if len(specs) > 1:
                     c = c - 3.0  # away from the second source (placed at +2.5)
                 val, err, area = box_flux(f, c, half, rot, max_sub)
@@ -248,7 +283,7 @@ def check_case(ctx, case):
                     V = np.array(s["vertices"])
                     k = int(rng.integers(0, len(V) - 1))
                     wp_local, tang = (V[k] + V[k + 1]) / 2, (V[k + 1] - V[k]) / np.linalg.norm(V[k + 1] - V[k])
-                    span = 0.4 * min(np.linalg.norm(V[k + 1] - V[k]), 0.5)
+                    span = 0.4 * min(np.linalg.norm(V[k + 1] - V[k]), 0.5 * unit)
                 # loop plane perpendicular to the wire tangent -> the loop normal is +-tangent
                 sign = float(rng.choice([-1, 1]))
                 zax = tang * sign
@@ -256,7 +291,7 @@ def check_case(ctx, case):
                 xax /= np.linalg.norm(xax)
                 yax = np.cross(zax, xax)
                 lrot = R.from_matrix(np.c_[xax, yax, zax])
-                rad = span * float(10 ** rng.uniform(-1.5, -0.3))
+                rad = span * float(10 ** rng.uniform(-2.5, -0.3))
                 if kind == "circ_link":
                     cl = wp_local + lrot.apply([rad * rng.uniform(-0.4, 0.4), rad * rng.uniform(-0.4, 0.4), 0])
                     expected = I * sign
@@ -272,7 +307,12 @@ def check_case(ctx, case):
                     expected = I * n
                     if (kind == "circ_link") != (n != 0):
                         ctx.count("linking_by_construction_differs_from_intent")
-                val, err, area = loop_circulation(f, G.to_global(s, cl)[0], rad, R0 * lrot, npoly=int(rng.choice([0, 0, 5])), limit=qlimit)
+                npoly = int(rng.choice([0, 0, 0, 5]))
+                if npoly == 0:
+                    val, err, area = loop_circulation_smooth(f, G.to_global(s, cl)[0], rad, R0 * lrot)
+                    ctx.count("smooth_loops")
+                else:
+                    val, err, area = loop_circulation(f, G.to_global(s, cl)[0], rad, R0 * lrot, npoly=npoly, limit=qlimit)
             else:  # loop through / around a magnet: no free current
                 rad = size * float(10 ** rng.uniform(-1, 0.3))
                 c = p0 + rng.normal(size=3) * size * 0.4
@@ -291,6 +331,10 @@ def check_case(ctx, case):
         return
     ctx.count("kind:" + kind)
     ctx.count("cls:" + s["cls"])
+    if unit != 1.0:
+        ctx.count("unit:%g" % unit)
+    if case.get("wrapped_angles"):
+        ctx.count("cutting_wrapped_cylinder_segments")
     ctx.evaluated(case, nontrivial=kind not in ("flux_free", "circ_nolink"))
     dev = abs(val - expected)
     from vfw import tol
